@@ -161,7 +161,7 @@ def gen_poly(rng, n, tier):
         else:
             xs = [p[0] for p in pts]; ys = [p[1] for p in pts]
             q = [rng.uniform(min(xs) - 30 * sc, max(xs) + 30 * sc), rng.uniform(min(ys) - 30 * sc, max(ys) + 30 * sc)]
-        out.append({'pts': pts, 'q': q, 'edited': rng.random() < 0.3})
+        out.append({'pts': pts, 'q': q, 'edited': rng.random() < 0.3, 'qtrack': rng.choice([None, None, 'fresh', 'mapped'])})
     return out
 
 
@@ -185,7 +185,19 @@ def run_poly(case):
     else:
         tr = Track([Obs(ENUCoords(x, y, 0), ObsTime.readUnixTime(k)) for k, (x, y) in enumerate(case['pts'])])
     c, d2, i2 = mp.mapOnTrack(ENUCoords(case['q'][0], case['q'][1], 0), tr)
-    return {'d': float(d), 'px': float(px), 'py': float(py), 'i': int(i), 'map': [float(c.getX()), float(c.getY()), float(d2), int(i2)]}
+    res = {'d': float(d), 'px': float(px), 'py': float(py), 'i': int(i), 'map': [float(c.getX()), float(c.getY()), float(d2), int(i2)]}
+    if case.get('qtrack'):
+        # the track form of mapOnTrack: the query is a one-fix track, fresh or itself the result of an earlier mapOnTrack on another polyline
+        # (it then already carries the features the result is reported in)
+        qt = Track([Obs(ENUCoords(case['q'][0], case['q'][1], 0), ObsTime.readUnixTime(5))])
+        if case['qtrack'] == 'mapped':
+            other = Track([Obs(ENUCoords(case['q'][0] - 3.0, case['q'][1] - 40.0, 0)), Obs(ENUCoords(case['q'][0] + 5.0, case['q'][1] - 40.0, 0)), Obs(ENUCoords(case['q'][0] + 50.0, case['q'][1] - 45.0, 0))])
+            qt2 = mp.mapOnTrack(qt, other)
+            qt2.getObs(0).position.setX(case['q'][0]); qt2.getObs(0).position.setY(case['q'][1])
+            qt = qt2
+        out = mp.mapOnTrack(qt, tr)
+        res['tmap'] = [float(out.getObs(0).position.getX()), float(out.getObs(0).position.getY()), float(out['dist', 0]), int(out['edge', 0])]
+    return res
 
 
 def coq_poly(case, obs):
@@ -220,6 +232,8 @@ def oracle_poly(case, obs):
     scale = 1 + max(abs(v) for p in pts for v in p)
     if abs(obs['d'] - dmin) > 1e-7 * scale:
         return 'proj_polyligne returned distance %r on segment %d but the minimum distance to the polyline is %r' % (obs['d'], i, dmin)
+    if 'tmap' in obs and obs['tmap'] != obs['map']:
+        return 'mapOnTrack(track) %r differs from mapOnTrack(coordinate) %r' % (obs['tmap'], obs['map'])
     if obs['map'] != [obs['px'], obs['py'], obs['d'], obs['i']]:
         return 'mapOnTrack %r differs from proj_polyligne %r' % (obs['map'], [obs['px'], obs['py'], obs['d'], obs['i']])
     return None
@@ -235,7 +249,7 @@ def shrink_poly(case):
     pts = case['pts']
     if len(pts) > 2:
         for i in range(len(pts)):
-            yield {'pts': pts[:i] + pts[i + 1:], 'q': case['q'], 'edited': case.get('edited', False)}
+            yield dict(case, pts=pts[:i] + pts[i + 1:])
 
 
 POLY_TYPE = 'list (float * float) * float * float * option (float * float * float * nat)'
